@@ -18,3 +18,6 @@ def run(prog, rep):
     r_key.run(prog, rep, only=('nix::hdf5::PropertyHDF5',), floor=6)
     r_key.run_getters(prog, rep, only=('nix::hdf5::PropertyHDF5',), floor=3)
     r_codec.run_datatype(prog, rep)
+    from ..rules import r_io as _rio
+    _rio.run_growable(prog, rep)
+    _rio.run_dcpl(prog, rep)
